@@ -9,7 +9,11 @@ PROP = {'module': 'GolibsVerif.Theorems.C05',
              'idna.ToASCII as a parameter (oracle field)',
              'strconv.ParseUint(s,10,8) modelled as parseUintDec'],
  'assumptions': ['the independent Go decoder written from the property text (specArpaPrefix/specExtract) is the direct oracle'],
- 'level_text': "Lean theorems about the model of reversed.go's prefix decoders (totality for every input, masked result, agreement with "
-               'the label-level specification); tie by differential correspondence and bounded-exhaustive label sequences on every run',
- 'level_note': 'trusted: Lean kernel; correspondence (sampled + bounded exhaustive); netip model; idna.ToASCII contracts IDNA-1/2 where '
-               'stated'}
+ 'level_text': 'Lean theorems about the model of reversed.go: prefix_iff / extract_iff (PrefixFromReversedAddr and ExtractReversedAddr '
+               'accept exactly the names of the label-level specification written from the property text and return its prefix, longest '
+               'label-aligned suffix for extraction), prefix_masked / extract_masked (host bits zero), totality of both functions and '
+               'their helpers (no out-of-range index or slice, no fuel exhaustion); tie by differential correspondence and '
+               'bounded-exhaustive label sequences on every run',
+ 'level_note': 'contracts are explicit hypotheses: hDot (idna.ToASCII keeps a leading dot; needed for extraction totality and prefix '
+               'soundness, shown necessary by machine-checked counterexamples) and hT = IDNA-1 (ASCII names without xn-- labels are '
+               'fixed points; needed for completeness); trusted: Lean kernel; correspondence; netip model'}
